@@ -25,6 +25,13 @@ type unfaithful struct {
 	path string
 	kind string // "key-missing-in-plan" | "key-extra-in-plan" | "key-duplicate-in-plan" | "node-kind" | "nullability" | "possible-types" | "enum-values" | "path"
 	what string
+
+	p []any
+	// attributes used by the recognisers of the planner findings
+	typenameField    bool // the key concerned is a __typename selection (in the operation or in the plan)
+	unionTNClass     bool // the object's selection level is in the class of findingUnionTypename
+	absentTypename   bool // key-missing only: the plan selects the key once absent __typename entries are read as the statically known type
+	emptyPossible    bool // possible-types only: the plan node has no PossibleTypes at all
 }
 
 func (u unfaithful) String() string { return u.kind + "@" + u.path + ": " + u.what }
@@ -35,14 +42,15 @@ type tview struct {
 	seen map[string]bool
 }
 
-func (tv *tview) add(path []any, kind, format string, a ...any) {
-	u := unfaithful{path: pathKey(path), kind: kind, what: fmt.Sprintf(format, a...)}
+func (tv *tview) add(path []any, kind, format string, a ...any) *unfaithful {
+	u := unfaithful{path: pathKey(path), p: path, kind: kind, what: fmt.Sprintf(format, a...)}
 	k := u.String()
 	if tv.seen[k] || len(tv.out) >= 12 {
-		return
+		return &unfaithful{}
 	}
 	tv.seen[k] = true
 	tv.out = append(tv.out, u)
+	return &tv.out[len(tv.out)-1]
 }
 
 // faithful compares T with the operation along j; empty result = faithful on this document.
@@ -52,7 +60,7 @@ func (m *model) faithful(resp *resolve.GraphQLResponse, j *jv) []unfaithful {
 		return nil
 	}
 	rootT := gast.NonNullNamedType(m.rootName(), nil)
-	tv.object(resp.Data, rootT, []gast.SelectionSet{m.op.SelectionSet}, j, nil, nil, true)
+	tv.object(resp.Data, rootT, []gast.SelectionSet{m.op.SelectionSet}, j, nil, nil, nil, true)
 	return tv.out
 }
 
@@ -89,7 +97,7 @@ func selectedByPlan(obj *resolve.Object, stack []*string) []*resolve.Field {
 	return out
 }
 
-func (tv *tview) node(n resolve.Node, t *gast.Type, sets []gast.SelectionSet, v *jv, stack []*string, path []any, key string, isItem bool) {
+func (tv *tview) node(n resolve.Node, t *gast.Type, sets []gast.SelectionSet, v *jv, stack []*string, rts []string, path []any, key string, isItem bool) {
 	if n.NodeNullable() == t.NonNull {
 		tv.add(path, "nullability", "plan node %T nullable=%v, declared type %s", n, n.NodeNullable(), t.String())
 	}
@@ -110,10 +118,10 @@ func (tv *tview) node(n resolve.Node, t *gast.Type, sets []gast.SelectionSet, v 
 		}
 		if v != nil && v.k == jArr {
 			for i, it := range v.arr {
-				tv.node(arr.Item, t.Elem, sets, it, stack, pathAppend(path, i), "", true)
+				tv.node(arr.Item, t.Elem, sets, it, stack, rts, pathAppend(path, i), "", true)
 			}
 		} else {
-			tv.node(arr.Item, t.Elem, sets, nil, stack, pathAppend(path, 0), "", true)
+			tv.node(arr.Item, t.Elem, sets, nil, stack, rts, pathAppend(path, 0), "", true)
 		}
 		return
 	}
@@ -164,15 +172,15 @@ func (tv *tview) node(n resolve.Node, t *gast.Type, sets []gast.SelectionSet, v 
 	}
 	sort.Strings(got)
 	if want := possibleNames(tv.m.s, def); strings.Join(got, ",") != strings.Join(want, ",") {
-		tv.add(path, "possible-types", "plan PossibleTypes %v, schema %v", got, want)
+		tv.add(path, "possible-types", "plan PossibleTypes %v, schema %v", got, want).emptyPossible = len(got) == 0
 	}
 	if obj.Unresolvable {
 		tv.add(path, "node-kind", "plan object marked Unresolvable")
 	}
-	tv.object(obj, t, sets, v, stack, path, false)
+	tv.object(obj, t, sets, v, stack, rts, path, false)
 }
 
-func (tv *tview) object(obj *resolve.Object, t *gast.Type, sets []gast.SelectionSet, v *jv, stack []*string, path []any, root bool) {
+func (tv *tview) object(obj *resolve.Object, t *gast.Type, sets []gast.SelectionSet, v *jv, stack []*string, rts []string, path []any, root bool) {
 	if v == nil || v.k != jObj {
 		return
 	}
@@ -187,7 +195,21 @@ func (tv *tview) object(obj *resolve.Object, t *gast.Type, sets []gast.Selection
 		tn = &s
 	}
 	stack = append(append([]*string(nil), stack...), tn)
+	rts = append(append([]string(nil), rts...), rt)
+	filled := make([]*string, len(stack))
+	for i := range stack {
+		filled[i] = stack[i]
+		if filled[i] == nil {
+			filled[i] = &rts[i]
+		}
+	}
+	li := tv.m.levelInfo(sets, def.Name)
+	unionTN := def.IsAbstractType() && li.abstractFrags > 0 && li.unionTypename > 0
 	planFields := selectedByPlan(obj, stack)
+	planFilled := map[string]bool{}
+	for _, f := range selectedByPlan(obj, filled) {
+		planFilled[string(f.Name)] = true
+	}
 	opFields := tv.m.collect(sets, rt)
 	byKey := map[string]*resolve.Field{}
 	for _, f := range planFields {
@@ -203,7 +225,8 @@ func (tv *tview) object(obj *resolve.Object, t *gast.Type, sets []gast.Selection
 		opKeys[f.key] = true
 		pf, ok := byKey[f.key]
 		if !ok {
-			tv.add(path, "key-missing-in-plan", "operation selects %q (%s) for runtime type %s (__typename in data: %s), plan does not%s", f.key, f.name, rt, tnText(tn), conditionsOf(obj, f.key))
+			u := tv.add(path, "key-missing-in-plan", "operation selects %q (%s) for runtime type %s (__typename in data: %s), plan does not%s", f.key, f.name, rt, tnText(tn), conditionsOf(obj, f.key))
+			u.typenameField, u.unionTNClass, u.absentTypename = f.name == "__typename", unionTN, planFilled[f.key]
 			continue
 		}
 		if f.name == "__typename" {
@@ -221,11 +244,13 @@ func (tv *tview) object(obj *resolve.Object, t *gast.Type, sets []gast.Selection
 			}
 			continue
 		}
-		tv.node(pf.Value, f.typ, f.sets, v.get(f.key), stack, pathAppend(path, f.key), f.key, false)
+		tv.node(pf.Value, f.typ, f.sets, v.get(f.key), stack, rts, pathAppend(path, f.key), f.key, false)
 	}
 	for _, f := range planFields {
 		if !opKeys[string(f.Name)] {
-			tv.add(path, "key-extra-in-plan", "plan renders %q for runtime type %s (__typename in data: %s), operation does not select it%s", f.Name, rt, tnText(tn), conditionsOf(obj, string(f.Name)))
+			u := tv.add(path, "key-extra-in-plan", "plan renders %q for runtime type %s (__typename in data: %s), operation does not select it%s", f.Name, rt, tnText(tn), conditionsOf(obj, string(f.Name)))
+			_, isStr := f.Value.(*resolve.String)
+			u.typenameField, u.unionTNClass = isStr && f.Value.(*resolve.String).IsTypeName, unionTN
 		}
 	}
 }
